@@ -22,6 +22,43 @@ PROOFS = {
 LINKS = ('C04', 'C10', 'C12', 'C13', 'C18')
 
 
+# Passive protocol monitor: the forward-model evaluations a driver performs anyway are recorded (wrappers around the
+# public methods, harness/pipeline.py) and validated against spec/Pipeline.tla -- every guard at every step of every
+# real run, as X01 does for its own scenarios.
+MONITOR = ('C02', 'C03', 'C07', 'C13', 'C16', 'C19')
+
+
+def monitor_begin(pid):
+    if pid not in MONITOR and not os.environ.get('VERIF_MONITOR'):
+        return False
+    from . import pipeline
+    pipeline.install()
+    pipeline.start(0)
+    return True
+
+
+def monitor_end(ctx):
+    from . import pipeline
+    from .core import validate_trace
+    evs = pipeline.stop()
+    if not evs:
+        ctx.note('protocol monitor: no forward-model event recorded')
+        return
+    tl = pipeline.for_tlc(evs)
+    ok, bad, res = validate_trace('Trace_Pipeline', 'Trace_Pipeline.cfg', tl, timeout=1800)
+    ctx.add_tlc('monitor-pipeline', res, counts=False)
+    if res.postcondition_false and not bad:
+        raise Machinery('monitor: pipeline trace not fully consumed:\n' + res.out[-1200:])
+    badt = {b['tid']: b for b in bad}
+    tids = sorted({e['tid'] for e in tl})
+    for t in tids:
+        b = badt.get(t)
+        ctx.verdict('pipeline_protocol', b is None, cls='monitor' + ((':' + b['ev']) if b else ''),
+                    detail='model object %d: rejected at %r' % (t, b), vector=dict(monitor=True))
+    ctx.traces += len(tids)
+    ctx.note('protocol monitor: %d events of %d model objects validated against Pipeline.tla, %d rejected' % (len(tl), len(tids), len(bad)))
+
+
 def run_proofs(ctx, pid):
     for module, theorems in PROOFS.get(pid, ()):
         ctx.check_proofs(module, theorems)
@@ -61,7 +98,16 @@ def main(argv):
                 data = json.load(f)
             drv.replay(ctx, data.get('violations', []))
         else:
-            drv.run(ctx)
+            mon = monitor_begin(pid)
+            try:
+                drv.run(ctx)
+            finally:
+                if mon:
+                    from . import pipeline
+                    if sys.exc_info()[0] is not None:
+                        pipeline.stop()
+            if mon:
+                monitor_end(ctx)
             run_proofs(ctx, pid)
         return ctx.finish()
     except Machinery as e:
